@@ -790,7 +790,9 @@ fn front_door_case(rng: &mut Rng, rep: &mut Report) {
         return;
     }
     rep.count("front_door.camera");
-    if ctx1.stats.borrow().frags.o > 0 {
+    // (seen in the buffer, not in ctx.stats, which is another property's matter)
+    let fresh = sc.canvas();
+    if c1.col.data() != fresh.col.data() {
         rep.count("front_door.camera_drew_fragments");
     }
     if c1.col.data() != c2.col.data() || c1.dep.data().iter().map(|z| z.to_bits()).ne(c2.dep.data().iter().map(|z| z.to_bits())) {
